@@ -39,6 +39,12 @@ type Case struct {
 	DelayPct   int    `json:"delay_pct"`   // live: pong delay in percent of the timeout (0, 25, 50)
 	Traffic    bool   `json:"traffic"`
 	BrokerPing []int  `json:"broker_pings"` // moments (ms) at which the broker sends its own pings
+	// live only: at StallAtMs the peer stops reading for StallMs (the client's writes block: back-pressure) and sends Burst pings at
+	// once; every one of them is still answered, in order, when the writes flow again (seeded change C15/m3: pings arriving while
+	// the pong writer was blocked were dropped beyond a small queue)
+	StallAtMs int `json:"stall_at_ms,omitempty"`
+	StallMs   int `json:"stall_ms,omitempty"`
+	Burst     int `json:"burst,omitempty"`
 }
 
 type result struct {
@@ -161,6 +167,28 @@ func runOnce(c Case) (*result, *ev.Failure) {
 			inc0.Send(&message.Ping{RequestID: message.RequestID(id)})
 		}
 	}()
+	if c.Burst > 0 && c.Mode == "live" {
+		go func() {
+			select {
+			case <-time.After(time.Duration(c.StallAtMs) * time.Millisecond):
+			case <-stop:
+				return
+			}
+			inc0.Link.StallWrites()
+			for i := 0; i < c.Burst; i++ {
+				id := uint32(910001 + 2*i)
+				mu.Lock()
+				bpIDs = append(bpIDs, id)
+				mu.Unlock()
+				inc0.Send(&message.Ping{RequestID: message.RequestID(id)})
+			}
+			select {
+			case <-time.After(time.Duration(c.StallMs) * time.Millisecond):
+			case <-stop:
+			}
+			inc0.Link.ResumeWrites()
+		}()
+	}
 	if c.Traffic {
 		go func() {
 			for i := 0; ; i++ {
@@ -302,6 +330,12 @@ func gen(t *rapid.T) Case {
 		n := rapid.IntRange(0, 5).Draw(t, "nbp")
 		for i := 0; i < n; i++ {
 			c.BrokerPing = append(c.BrokerPing, rapid.IntRange(0, 25*c.IntervalMs).Draw(t, "at"))
+		}
+		if rapid.IntRange(0, 2).Draw(t, "stall") == 0 {
+			c.TimeoutMs = 400
+			c.StallAtMs = rapid.IntRange(0, 10*c.IntervalMs).Draw(t, "stallat")
+			c.StallMs = rapid.SampledFrom([]int{20, 60, 100}).Draw(t, "stallms")
+			c.Burst = rapid.SampledFrom([]int{3, 12, 30}).Draw(t, "burst")
 		}
 	}
 	return c
